@@ -25,6 +25,7 @@ Other(n) == IF n = "r1" THEN "r2" ELSE "r1"
 Target == {"null", "L", "F"}
 Args   == {<<1, 0>>, <<2, 1>>}
 
+NWit == 4          \* number of witness conditions (section "behaviour export")
 VARIABLES ref, acc, cnt, hist
 vars == <<ref, acc, cnt, hist>>
 
@@ -48,6 +49,7 @@ Step(op, d, t, x, y, r2, a2, c2, ret) ==
              ELSE Append(hist, [op |-> op, d |-> d, t |-> t, x |-> x, y |-> y, exp |-> ObsOf(r2, a2, c2, ret)])
 
 Init == /\ ref = [r1 |-> "unset", r2 |-> "unset"] /\ acc = 0 /\ cnt = 0
+        /\ \A i \in 1..NWit : TLCSet(i, 0)
         /\ hist = IF Hist THEN <<[op |-> "init", d |-> "", t |-> "", x |-> 0, y |-> 0, exp |-> ObsOf(ref, acc, cnt, 99)]>> ELSE <<>>
 
 \* function_ref<int(int,int)> d(t)  -- (re)binding constructs a new reference object in the variable
@@ -83,11 +85,13 @@ Property == EffectLocal
 (* ---- behaviour export ---------------------------------------------------- *)
 EmitAll == (Hist /\ Len(hist) = Depth + 1) => PrintT(<<"BEH", ToJson([steps |-> hist])>>)
 Last == hist[Len(hist)]
-Wit(w) == (Hist /\ Len(hist) > 1 /\ w) => (PrintT(<<"BEH", ToJson([steps |-> hist])>>) /\ FALSE)
-WitSharedState  == Wit(Last.op = "Invoke" /\ Last.t = "L" /\ Len(hist) >= 5 /\ hist[Len(hist) - 1].op = "Direct"
-                       /\ hist[Len(hist) - 1].t = "L" /\ hist[Len(hist) - 2].op = "Invoke" /\ hist[Len(hist) - 2].t = "L")
-WitCopyThenCall == Wit(Last.op = "Invoke" /\ Len(hist) >= 3 /\ hist[Len(hist) - 1].op = "CopyRef" /\ hist[Len(hist) - 1].d = Last.d)
-WitRebind       == Wit(Last.op = "Invoke" /\ Last.t = "F" /\ Len(hist) >= 5 /\ hist[Len(hist) - 1].op = "Bind" /\ hist[Len(hist) - 1].d = Last.d
-                       /\ \E i \in 2..(Len(hist) - 2) : hist[i].op = "Invoke" /\ hist[i].d = Last.d /\ hist[i].t = "L")
-WitNullAfterBound == Wit(Last.op = "Bind" /\ Last.t = "null" /\ \E i \in 2..(Len(hist) - 1) : hist[i].op = "Invoke" /\ hist[i].d = Last.d)
+HasLast == Hist /\ Len(hist) > 1
+\* rare conditions that must be in the replay set of every run: each is reported once (per worker)
+\* from the path-enumeration run itself; the check is broken if one of them is never reported
+Wits == <<
+  <<"SharedState", HasLast /\ Last.op = "Invoke" /\ Last.t = "L" /\ Len(hist) >= 5 /\ hist[Len(hist) - 1].op = "Direct" /\ hist[Len(hist) - 1].t = "L" /\ hist[Len(hist) - 2].op = "Invoke" /\ hist[Len(hist) - 2].t = "L">>,
+  <<"CopyThenCall", HasLast /\ Last.op = "Invoke" /\ Len(hist) >= 3 /\ hist[Len(hist) - 1].op = "CopyRef" /\ hist[Len(hist) - 1].d = Last.d>>,
+  <<"Rebind", HasLast /\ Last.op = "Invoke" /\ Last.t = "F" /\ Len(hist) >= 5 /\ hist[Len(hist) - 1].op = "Bind" /\ hist[Len(hist) - 1].d = Last.d /\ \E i \in 2..(Len(hist) - 2) : hist[i].op = "Invoke" /\ hist[i].d = Last.d /\ hist[i].t = "L">>,
+  <<"NullAfterBound", HasLast /\ Last.op = "Bind" /\ Last.t = "null" /\ \E i \in 2..(Len(hist) - 1) : hist[i].op = "Invoke" /\ hist[i].d = Last.d>> >>
+WitAll == \A i \in 1..NWit : (Wits[i][2] /\ TLCGet(i) = 0) => (PrintT(<<"WIT", Wits[i][1]>>) /\ TLCSet(i, 1))
 =============================================================================
